@@ -1,6 +1,7 @@
-import Driver.Util
+import Driver.C01
 namespace Driver.C06
-/-- placeholder: replaced when the property's model is built -/
-def step (_ : Unit) (_ : List String) : Unit × String := ((), "unimplemented")
-def init : Unit := ()
+/-- C06 uses the same observation monitor as C01 (ids reserved only for unanswered requests, every call returns once) -/
+abbrev S := Driver.C01.S
+def init : S := Driver.C01.init
+def step : S → List String → S × String := Driver.C01.step
 end Driver.C06
